@@ -1,8 +1,8 @@
 #!/bin/bash
 # usage: verify_seed.sh <ID> <n> : independently confirm a seeded change in a scratch worktree:
 # demo passes clean, fails patched; full existing test suite shows no new failures with the patch.
-ID=$1; N=$2; S=/tmp/seed_out/$ID/$N; WT=/tmp/wt/v-$ID-$N
-rm -rf $WT; /verif/tools/mkworktree.sh $WT 8203d59 >/dev/null || exit 9
+ID=$1; N=$2; S=${SEEDROOT:-/tmp/seed_out}/$ID/$N; WT=/tmp/wt/v-$ID-$N
+rm -rf $WT; /verif/tools/mkworktree.sh $WT ${BASE:-8203d59} >/dev/null || exit 9
 cd $WT
 PYTHONPATH=$WT /venv/bin/python $S/demo.py > $S/demo_clean.log 2>&1; DC=$?
 git apply $S/patch.diff; AP=$?
